@@ -34,6 +34,11 @@ def obligations():
     o.append(Obl("C08.rmsd_traces.int", "xh", "harness.c03", "index_int", [TJ + "slice", TJ + "__getitem__", "mdtraj._rmsd"], "n<=3 frames, every int key, after center_coordinates()",
                  "md.rmsd(t[k], ref, precentered=True) equals entry k of the full-trajectory result: the cached traces follow the selected frames", 200))
     o.append(Obl("C08.rmsd_traces.list", "xh", "harness.c03", "index_list", [TJ + "slice", "mdtraj._rmsd"], "index lists of length 1..3 (repeats, reordering)", "same for permuted / repeated frames", 600, quick_pre="n >= 2 and i2 == 0", timeout_thorough=2400))
+    for sel in ("self", "self_sel"):
+        o.append(Obl(f"C08.superpose.{sel}", "py", "harness.c06", "superpose_wrapper", [TJ + "superpose"], "2 frames x 4 atoms superposed onto frame 1 OF THE SAME trajectory object (" + sel + ")",
+                     "every frame lands on the reference frame's ORIGINAL position (the private copy of the reference is taken before anything is centred in place): a frame's result does not depend on being aligned together with its reference", 300, params={"sel": sel}))
+    o.append(Obl("C08.ks.python_matrix", "xh", "harness.c15_py", "kabsch_sander_matrix", ["mdtraj.geometry.hbond.kabsch_sander (per-frame CSR assembly)"], "4 residues, 2 frames with different donors / acceptors / slot counts (symbolic)",
+                 "each frame's energy matrix holds exactly that frame's slots: nothing is shared between the matrices of different frames", 600))
     return o
 
 
